@@ -48,7 +48,7 @@ COMPONENTS = {
                   "file objects (SimFile)", "evaluation failures (EvalPoint)", "process / PYTHONHASHSEED (fresh interpreters)"],
     "stubbed": [],
 }
-EXPECTED_PROBES = ["build-drop-churn", "structured-boundary-pattern", "python-api-model-in-pool", "burst-of-evaluations-on-one-multi-range-function", "identical-form-text-other-helper-in-pool", "eval-exactly-at-range-boundary", "switch-inside-write", "two-tasks-same-handle", "write-after-faulted-write", "excel-write-across-clock-jump",
+EXPECTED_PROBES = ["evaluation-fails-inside-library-code", "build-drop-churn", "structured-boundary-pattern", "python-api-model-in-pool", "burst-of-evaluations-on-one-multi-range-function", "identical-form-text-other-helper-in-pool", "eval-exactly-at-range-boundary", "switch-inside-write", "two-tasks-same-handle", "write-after-faulted-write", "excel-write-across-clock-jump",
                    "backwards-clock-jump", "hashseed-comparison", "underspecified-eam-under-hashseeds", "shared-subform-different-args",
                    "same-form-name-different-formula-in-pool", "rebuild-same-model", "write-twice-same-handle", "eval-between-rows-of-own-write"]
 
@@ -214,7 +214,10 @@ def _perturb_numbers(rng, d):
 def gen_scenario(seed, tier="quick"):
     rng = random.Random(seed)
     hs_run = rng.random() < 0.15
-    opts = {"nr_max": 12, "nrho_max": 6, "max_species": 4, "forms_prob": 0.8, "tables_prob": 0.3, "species_override_prob": 0.35}
+    opts = {"nr_max": 12, "nrho_max": 6, "max_species": 4, "forms_prob": 0.8, "tables_prob": 0.3, "species_override_prob": 0.35,
+            # some functions fail by themselves beyond a separation inside the grid: a failed evaluation *inside* the
+            # library's own code (not at the harness wrapper) is a history element too
+            "natural_fault_prob": 0.2}
     if hs_run and rng.random() < 0.7:
         opts.update({"targets": mg.EAM_TARGETS + mg.FS_TARGETS + mg.ADP_TARGETS + ["setfl", "setfl_fs", "DL_POLY_EAM_fs"],
                      "underspecified_prob": 0.9, "max_species": 4, "min_species": 2})
@@ -301,7 +304,7 @@ def gen_scenario(seed, tier="quick"):
                 # range boundaries (exactly / just either side), grid points, interior points
                 h = rng.choice(readable)
                 defs = function_definitions(models[hmodel[h]])
-                multi = sorted(l for l, d in defs.items() if _BOUNDARY.search(d))
+                multi = sorted(l for l, d in defs.items() if _BOUNDARY.search(d) or re.search(r"\bnf\d+\b", d))
                 labs = multi if (multi and rng.random() < 0.8) else sorted(defs)
                 if labs:
                     fl = rng.choice(labs)
@@ -439,6 +442,9 @@ def range_boundaries(spec):
             for k, d in s["entries"]:
                 for m in _BOUNDARY.finditer(d):
                     out.add(float(m.group(1)))
+    nf = spec["meta"].get("natural_fault") or {}
+    if nf.get("edge") is not None:
+        out.add(float(nf["edge"]))
     return sorted(out)
 
 
@@ -470,7 +476,11 @@ def own_boundaries(spec, label):
     d = function_definitions(spec).get(label)
     if not d:
         return []
-    return sorted(set(float(m.group(1)) for m in _BOUNDARY.finditer(d)))
+    out = set(float(m.group(1)) for m in _BOUNDARY.finditer(d))
+    nf = spec["meta"].get("natural_fault") or {}
+    if nf.get("edge") is not None and re.search(r"\bnf\d+\b", d):
+        out.add(float(nf["edge"]))           # the separation beyond which this function fails by itself
+    return sorted(out)
 
 
 def _eval(tab, spec, op):
@@ -994,6 +1004,8 @@ def _probes(sc, refs, res, extra, bump):
         for op in ops:
             if op["op"] == "eval" and "bi" in op and op.get("eps") == 0.0 and op["h"] in hmodel and range_boundaries(sc["models"][hmodel[op["h"]]]):
                 bump("probe:eval-exactly-at-range-boundary")
+    if any(r.get("exc") and not r.get("unexpected") for results in res["tasks"] for r in results if isinstance(r, dict) and "f" in r):
+        bump("probe:evaluation-fails-inside-library-code")
     for ops in sc["tasks"]:
         kinds = [o["op"] for o in ops]
         for i in range(len(kinds) - 3):
